@@ -142,15 +142,26 @@ def oracle_call(case):
         arg = pd.Series(x.copy(), name='col') if kind == 'series' else as_array(x, kind)
         cls.append('container:' + kind)
         ucls = M.uni_class(case['cls'])
+        # constructor options that change what fit does with the data (user bounds narrower than the data, kernel weights,
+        # a resample size); a refusal of such a configuration is fine, writing into the training data is not
+        opts, variant = {}, 'default'
+        if case['cls'] == 'TruncatedGaussian' and case['seed'] % 3:
+            lo_q, hi_q = (0.1, 0.9) if case['seed'] % 3 == 1 else (0.0, 1.0)
+            opts, variant = {'minimum': float(np.quantile(x, lo_q)) - (lo_q == 0.0), 'maximum': float(np.quantile(x, hi_q)) + (hi_q == 1.0)}, \
+                'bounds-inside-data' if lo_q else 'bounds-around-data'
+        elif case['cls'] == 'GaussianKDE' and case['seed'] % 3:
+            opts, variant = ({'weights': rs.uniform(0.1, 1.0, size=n)}, 'weights') if case['seed'] % 3 == 1 else ({'sample_size': 25, 'bw_method': 0.5}, 'sample_size')
+        cls.append('options:' + variant)
 
         def fit_obs(a):
             np.random.seed(1)
-            m = ucls()
+            m = ucls(**opts)
             m.fit(a)
             return m.to_dict()
 
         if name == 'uni_fit':
-            r1, r2 = run_twice(fit_obs, [arg], '%s.fit(%s)' % (case['cls'], kind), ['training data'])
+            r1, r2 = run_twice(fit_obs, [arg], '%s(%s).fit(%s)' % (case['cls'], variant, kind), ['training data'],
+                               allow=(ValueError, RuntimeError, FloatingPointError) if variant == 'bounds-inside-data' else ())
             same_result(r1, r2, '%s.fit' % case['cls'])
         else:
             m = ucls()
